@@ -126,8 +126,11 @@ LTimeout == /\ Quiet /\ lstate = "hot" /\ (~TimerFIFO \/ Head(tq) = "L")
             /\ sess' = [i \in SessIds |-> IF i < nextId /\ sess[i].srv = "old" THEN [sess[i] EXCEPT !.sstate = "def"] ELSE sess[i]]
             /\ UNCHANGED <<nextId,s2c,c2s,lepoch,hrCalls,oldUp,newUp,mstate,mepoch,cur,reserve,closed,wpc,wsess,dies,injs,kf,idAtClose>>
 
-\* ---------------- session manager: handleSessionManagerHotRestart for the event received on session i
-MOnHR(i) == /\ Quiet /\ i \in Live /\ s2c[i] # <<>>
+\* ---------------- session manager: handleSessionManagerHotRestart for the event received on session i.
+\* The event is handled in a lambda posted to the dispatcher when it was read, so session i may have been closed in
+\* between (every event in s2c[i] may already have been read): no liveness guard on i. The handler does not look at
+\* whether the manager has been closed either.
+MOnHR(i) == /\ Quiet /\ i < nextId /\ s2c[i] # <<>>
             /\ LET e == Head(s2c[i])
                    p == sess[i].pool
                    starting == mstate # "hot"
@@ -138,6 +141,8 @@ MOnHR(i) == /\ Quiet /\ i \in Live /\ s2c[i] # <<>>
                IN
                /\ (ignore \/ ~swap \/ nextId <= MaxSess)
                /\ s2c' = [s2c EXCEPT ![i] = Tail(@)]
+               /\ kf' = kf \cup (IF ~ignore /\ closed # "no" THEN {"hr-after-close"} ELSE {})
+                         \cup (IF ~ignore /\ ~sess[i].alive THEN {"hr-on-closed-session"} ELSE {})
                /\ IF ignore THEN UNCHANGED <<sess,nextId,mstate,mepoch,cur,reserve,tq>>
                   ELSE /\ mstate' = "hot" /\ mepoch' = e
                        /\ tq' = IF starting THEN Append(tq, "M") ELSE tq
@@ -147,7 +152,7 @@ MOnHR(i) == /\ Quiet /\ i \in Live /\ s2c[i] # <<>>
                                  /\ cur' = [cur EXCEPT ![p] = nextId]
                                  /\ nextId' = nextId + 1
                                  /\ sess' = [Kill(killed) EXCEPT ![nextId] = [epoch |-> e, srv |-> Connect, alive |-> TRUE, sstate |-> "def", pool |-> p]]
-            /\ UNCHANGED <<c2s,lstate,lepoch,ack,hrCalls,oldUp,newUp,closed,wpc,wsess,dies,injs,kf,idAtClose>>
+            /\ UNCHANGED <<c2s,lstate,lepoch,ack,hrCalls,oldUp,newUp,closed,wpc,wsess,dies,injs,idAtClose>>
 \* SessionManager.checkHotRestart ticker branch: every pool has been swapped, acknowledge on the old sessions
 MCheckDone == /\ MDoneEn
               /\ mstate' = "def" /\ tq' = Without(tq, "M")
